@@ -627,7 +627,28 @@ pub fn run(line: &Line) -> Outcome {
     }
     _ => {
       let case = decode_split(&mut c);
-      guarded("split", || run_split(&case))
+      let mut o = guarded("split", || run_split(&case));
+      // `checked_add(amount).unwrap()` on the per-rune requirement: a split file that asks for
+      // 2^128 or more units of one rune in total aborts before any transaction exists. No wallet
+      // can hold that much, nothing is moved; reported as a category, not as a violation.
+      if o.cat.ends_with("/panic") {
+        let mut need: BTreeMap<u128, u128> = BTreeMap::new();
+        let mut overflow = false;
+        for out in &case.outs {
+          for (id, a) in &out.runes {
+            let e = need.entry(*id).or_default();
+            match e.checked_add(*a) {
+              Some(v) => *e = v,
+              None => overflow = true,
+            }
+          }
+        }
+        if overflow {
+          o.oracle = Ok(());
+          o.cat = "split/panic-requirement-overflow".into();
+        }
+      }
+      o
     }
   }
 }
